@@ -281,3 +281,54 @@ def check_slabcount(prog, report):
                  'elements' % (alls, alls),
                  construct='MeshParametrized: guard passes')
     report.floor('R-slabcount', 3)
+
+
+
+def check_closed_flag(prog, report):
+    """R-glue: whether the ends of the parameter interval are identified is
+    decided by the curve: PiecewisePolygon hands its `closed` argument to
+    the base class, the base class stores it, the open interval asks for
+    closed=False, and the mesh glues iff the curve says closed."""
+    P_ = 'src/parametrization.py'
+    base = prog.func(P_, 'PiecewiseParametrization.__init__')
+    ok1 = 'closed' in base.params and any(
+        isinstance(n, ast.Assign) and text(n.targets[0]) == 'self.closed'
+        and text(n.value) == 'closed' for n in ast.walk(base.node))
+    report.check(ok1, 'R-glue', 'PiecewiseParametrization stores closed',
+                 base.where(), 'self.closed = closed',
+                 construct='PiecewiseParametrization.__init__: closed')
+    poly = prog.func(P_, 'PiecewisePolygon.__init__')
+    sup = [n for n in ast.walk(poly.node) if isinstance(n, ast.Call)
+           and isinstance(n.func, ast.Attribute) and n.func.attr == '__init__'
+           and isinstance(n.func.value, ast.Call)
+           and text(n.func.value.func) == 'super']
+    ok2 = False
+    if len(sup) == 1:
+        kw = {k.arg: text(k.value) for k in sup[0].keywords}
+        pos = [text(a) for a in sup[0].args]
+        ok2 = kw.get('closed') == 'closed' or (len(pos) >= 3
+                                               and pos[2] == 'closed')
+    report.check(ok2, 'R-glue', 'PiecewisePolygon forwards closed',
+                 poly.where(), 'super().__init__(..., closed=closed): an '
+                 'open polygon must not fall back to the default closed=True',
+                 construct='PiecewisePolygon.__init__: closed forwarded')
+    mp_ = prog.func('src/mesh.py', 'MeshParametrized.__init__')
+    sup = [n for n in ast.walk(mp_.node) if isinstance(n, ast.Call)
+           and isinstance(n.func, ast.Attribute) and n.func.attr == '__init__'
+           and isinstance(n.func.value, ast.Call)
+           and text(n.func.value.func) == 'super']
+    gs = mp_.params[1] if len(mp_.params) > 1 else 'gamma_space'
+    ok3 = len(sup) == 1 and {k.arg: text(k.value) for k in
+                             sup[0].keywords}.get('glue_space') == \
+        gs + '.closed'
+    report.check(ok3, 'R-glue', 'mesh glues iff the curve is closed',
+                 mp_.where(), 'Mesh.__init__(glue_space=%s.closed, ...)' % gs,
+                 construct='MeshParametrized.__init__: glue_space')
+    ui = prog.cls(P_, 'UnitInterval').methods.get('__init__')
+    ok4 = ui is not None and any(
+        isinstance(n, ast.Call) and any(
+            k.arg == 'closed' and text(k.value) == 'False'
+            for k in n.keywords) for n in ast.walk(ui.node))
+    report.check(ok4, 'R-glue', 'UnitInterval is open',
+                 ui.where() if ui else P_, 'closed=False is passed on',
+                 construct='UnitInterval.__init__: closed=False')
